@@ -4,7 +4,8 @@ from __future__ import annotations
 
 import itertools
 
-STYLE_NAMES = ["name", "userName", "user_name", "user-name", "X-Req-Id", "id", "type", "class", "date", "field", "2fa", "_x"]
+# the last three are spelled like component schemas of the packed document (Tgt, PetU, StateEnum): an inline property is not a reference to them
+STYLE_NAMES = ["name", "userName", "user_name", "user-name", "X-Req-Id", "id", "type", "class", "date", "field", "2fa", "_x", "tgt", "petU", "state_enum"]
 
 # target of reference-valued properties: has a renamed (camelCase) property so that wire keys matter in nested positions.
 # each container kind gets its OWN target schema, so that the converter meets it only through that container
@@ -66,6 +67,12 @@ KINDS = {
     "object-type-list-null": ({"type": ["object", "null"], "properties": {"q": {"type": "integer"}}}, None, [{"q": 1}, None, {}]),
     "array-type-list-null": ({"type": ["array", "null"], "items": {"type": "string"}}, None, [["a"], None, []]),
     "integer-type-list-null": ({"type": ["integer", "null"]}, None, [3, None, 0]),
+    # the same with "null" listed FIRST
+    "null-first-integer": ({"type": ["null", "integer"]}, None, [3, None, 0]),
+    "null-first-string": ({"type": ["null", "string"]}, None, ["a", None, ""]),
+    "null-first-array": ({"type": ["null", "array"], "items": {"type": "string"}}, None, [["a"], None, []]),
+    # enum values of which two collide after derivation while a third one spells the suffixed name itself
+    "enum-colliding": ({"type": "string", "enum": ["v1", "V1", "v1-1", "a", "A", "a_1"]}, None, ["v1", "V1", "v1-1"]),
     # a property whose schema is left empty (YAML `note:` / JSON null): no constraint, but the property exists
     "null-schema": (None, None, [1, "s", {"a": [1]}]),
     # "any value" spelled as an empty schema under additionalProperties (Swashbuckle / NSwag style)
